@@ -242,6 +242,48 @@ fn run(ops: &[Op]) -> Result<(), (usize, Fail)> {
   Ok(())
 }
 
+/// like `run`, but a failure of a C11 *query* oracle does not end the sequence: the operations go on (the model stays the truth) and
+/// a later failure attributed to another property (an operation that panics, a wrong cycle verdict, a broken rank order) is reported
+/// as well -- at most one failure per property
+fn run_all(ops: &[Op]) -> Vec<(usize, Fail)> {
+  let mut out: Vec<(usize, Fail)> = vec![];
+  let mut dag: DAG<u32, u32> = DAG::new(); let mut m = Model::default(); let mut nodes = vec![];
+  for (i, op) in ops.iter().enumerate() {
+    if *op == Op::New { dag = DAG::new(); m = Model::default(); nodes = vec![]; continue; }
+    let valid = match *op { Op::AddNode => true, Op::AddEdge(a, b) | Op::RemoveEdge(a, b) => a < nodes.len() && b < nodes.len(), Op::RemoveOut(a) | Op::RemoveNode(a) => a < nodes.len(), Op::New => true };
+    if !valid { continue; }
+    let r = std::panic::catch_unwind(std::panic::AssertUnwindSafe(|| apply(&mut dag, &mut m, &mut nodes, *op, 100 + i as u32)));
+    let f = match r { Ok(Ok(())) => None, Ok(Err(f)) => Some(f), Err(e) => Some(Fail { prop: "C10", ob: "C10.bounded.operation_does_not_panic", what: format!("{:?} panicked: {}", op, panic_text(&e)) }) };
+    if let Some(f) = f { if !out.iter().any(|(_, g)| g.prop == f.prop) { out.push((i, f)); } return out; }   // after a failed operation the model and the graph may differ: stop
+    let r = std::panic::catch_unwind(std::panic::AssertUnwindSafe(|| check_state(&dag, &m, &nodes)));
+    let f = match r { Ok(Ok(())) => None, Ok(Err(f)) => Some(f), Err(e) => Some(Fail { prop: "C11", ob: "C11.bounded.query_does_not_panic", what: format!("a query after {:?} panicked: {}", op, panic_text(&e)) }) };
+    if let Some(f) = f {
+      let is_c11 = f.prop == "C11";
+      if !out.iter().any(|(_, g)| g.prop == f.prop) { out.push((i, f)); }
+      if !is_c11 { return out; }
+    }
+  }
+  out
+}
+
+/// operation sequences of shapes that random search finds late (all over five nodes 0..4 added first)
+fn fixed_sequences() -> Vec<Vec<Op>> {
+  use Op::*;
+  let five = || vec![AddNode, AddNode, AddNode, AddNode, AddNode];
+  let mut v = vec![];
+  // dst=0 reaches c=2 directly (edge inserted first) and through its sibling a=1; src=4 has an ancestor p=3 inside the affected region
+  let mut s = five(); s.extend([AddEdge(0, 2), AddEdge(0, 1), AddEdge(1, 2), AddEdge(3, 4), AddEdge(4, 0), AddEdge(1, 0), AddEdge(2, 4)]); v.push(s);
+  // the same with the sibling edge first
+  let mut s = five(); s.extend([AddEdge(0, 1), AddEdge(0, 2), AddEdge(1, 2), AddEdge(3, 4), AddEdge(4, 0), AddEdge(2, 3)]); v.push(s);
+  // a node with outgoing and incoming edges is removed, then edges are added that reorder through its former neighbours
+  let mut s = five(); s.extend([AddEdge(1, 2), AddEdge(2, 3), AddEdge(0, 2), RemoveNode(2), AddEdge(3, 1), AddEdge(3, 0), AddEdge(4, 3), AddEdge(1, 4)]); v.push(s);
+  // the top-ranked node is removed, a node is added, and the new node takes part in a reordering insertion
+  let mut s = five(); s.extend([AddEdge(0, 1), RemoveNode(4), AddNode, AddEdge(5, 0), AddEdge(3, 5), AddEdge(1, 3)]); v.push(s);
+  // a rejected cycle, then the same edge again, then the reverse direction
+  let mut s = five(); s.extend([AddEdge(0, 1), AddEdge(1, 2), AddEdge(2, 0), AddEdge(2, 0), AddEdge(0, 2), RemoveEdge(1, 2), AddEdge(2, 0)]); v.push(s);
+  v
+}
+
 fn ops_json(ops: &[Op]) -> String {
   let v: Vec<String> = ops.iter().map(|o| match o { Op::AddNode => "\"N\"".to_string(), Op::AddEdge(a, b) => format!("\"E{},{}\"", a, b), Op::RemoveEdge(a, b) => format!("\"e{},{}\"", a, b), Op::RemoveOut(a) => format!("\"o{}\"", a), Op::RemoveNode(a) => format!("\"n{}\"", a), Op::New => "\"X\"".to_string() }).collect();
   format!("[{}]", v.join(","))
@@ -278,13 +320,14 @@ fn main() {
     let ops = parse_ops(&args[2]);
     std::panic::set_hook(Box::new(|_| {}));
     if ops.contains(&Op::New) { if let Err(f) = det_check(&ops) { report(&ops, ops.len() - 1, &f); std::process::exit(1); } }
-    match run(&ops) { Ok(()) => { println!("{{\"violation\":false,\"ops\":{}}}", ops_json(&ops)); }, Err((at, f)) => { report(&ops, at, &f); std::process::exit(1); } }
+    let fs = run_all(&ops); if fs.is_empty() { println!("{{\"violation\":false,\"ops\":{}}}", ops_json(&ops)); } else { for (at, f) in &fs { report(&ops, *at, f); } std::process::exit(1); }
     return;
   }
   let get = |name: &str, d: usize| -> usize { args.iter().position(|a| a == name).map(|i| args[i + 1].parse().unwrap()).unwrap_or(d) };
   let (k, l, random, len, seed) = (get("--k", 3), get("--l", 4), get("--random", 0), get("--len", 12), get("--seed", 1));
   let mut found = 0usize; let mut runs = 0u64; let mut nontrivial = 0u64;
   let quiet = std::panic::take_hook(); std::panic::set_hook(Box::new(|_| {}));
+  for ops in fixed_sequences() { runs += 1; nontrivial += 1; let fs = run_all(&ops); if !fs.is_empty() { for (at, f) in &fs { report(&ops, *at, f); } found += 1; } }
   // exhaustive: K add_node first, then every sequence of <= L edge/removal operations
   let alphabet = all_ops(k);
   let mut idx = vec![0usize; l];
@@ -293,7 +336,7 @@ fn main() {
     let mut ops = prefix.clone(); ops.extend(idx.iter().map(|i| alphabet[*i]));
     runs += 1;
     if idx.iter().any(|i| matches!(alphabet[*i], Op::AddEdge(a, b) if a != b)) { nontrivial += 1; }
-    if let Err((at, f)) = run(&ops) { report(&ops, at, &f); found += 1; if found >= 5 { break 'outer; } }
+    let fs = run_all(&ops); if !fs.is_empty() { for (at, f) in &fs { report(&ops, *at, f); } found += 1; if found >= 5 { break 'outer; } }
     let mut p = l;
     loop { if p == 0 { break 'outer; } p -= 1; idx[p] += 1; if idx[p] < alphabet.len() { break; } idx[p] = 0; }
   }
@@ -313,7 +356,7 @@ fn main() {
       else { ops.push(Op::RemoveNode(rng.below(n))); }
     }
     runs += 1; nontrivial += 1;
-    if found < 5 { if let Err((at, f)) = run(&ops) { report(&ops, at, &f); found += 1; } }
+    if found < 5 { let fs = run_all(&ops); if !fs.is_empty() { for (at, f) in &fs { report(&ops, *at, f); } found += 1; } }
     // C16: this sequence alone vs. after the two previous random sequences on one thread
     let mut both = earlier.clone(); both.push(Op::New); both.extend(ops.iter().cloned());
     if !earlier.is_empty() && det_found < 2 { if let Err(f) = det_check(&both) { report(&both, both.len() - 1, &f); found += 1; det_found += 1; } }
